@@ -39,12 +39,12 @@ else:
 Definition minimize_repeat_tests : list string := ["self.minimize_repeat != 'never'"%string; "self.minimize_repeat == 'always'"%string; "self.minimize_repeat in {'always', 'last'}"%string].
 Definition collapse_re_calls : list (string * list N * string) := [("sub"%string, [123; 92; 115; 43; 125]%N, ""%string)].
 Definition collapse_literals : list (list N) := [[]%N; [123; 92; 115; 43; 125]%N; [123; 32; 125]%N].
-Definition create_temp_dir_catches : list string := ["OSError"%string].
+Definition create_temp_dir_catches : list string := ["FileExistsError"%string].
 Definition create_temp_dir_body : string := "i = 1 ; while True:
     temp_dir = Path(f'tmp{i}')
     try:
         temp_dir.mkdir()
-    except OSError:
+    except FileExistsError:
         i += 1
     else:
         self.temp_dir = temp_dir
